@@ -60,7 +60,7 @@ def main(props):
             notes = open(os.path.join(d, 'notes.md')).read() if os.path.exists(os.path.join(d, 'notes.md')) else ''
             meta = {
                 'property': prop, 'origin': 'independent sub-agent given only the property text and a scratch worktree',
-                'base_commit': '6daa110',
+                'base_commit': subprocess.run('git rev-parse --short HEAD', cwd=wt, shell=True, stdout=subprocess.PIPE).stdout.decode().strip(),
                 'needs_to_manifest': notes.strip()[:1500],
                 'confirmed': {
                     'tests': 'pytest in scratch worktree with patch applied: all %d baseline-stable tests pass, no extra passes' % len(stable),
